@@ -3,6 +3,7 @@
 package p07
 
 import (
+	"time"
 	"bytes"
 	"sync"
 	"encoding/hex"
@@ -24,7 +25,12 @@ func (P) ID() string { return "C07" }
 
 // ---------------------------------------------------------------- facts (T2)
 
-func (P) Facts() []core.Fact {
+func (P) Facts() (out []core.Fact) {
+	defer func() { // never crash fact extraction on a mutated tree: a missing fact breaks a pin theorem instead
+		if r := recover(); r != nil {
+			out = nil
+		}
+	}()
 	// Only values the protocol / BIPs fix and the package exports. Internal identifiers (sigHashMask,
 	// blankCodeSepValue, ext flag constants, isValidTaprootSigHash) are NOT read: their effect is
 	// observed through the digests.
@@ -296,12 +302,27 @@ func (p P) Exec(line string) (out string) {
 			fmt.Fprintf(dumpFile, "%s\t%s\n", line, out)
 		}()
 	}
-	c := &ectx{}
-	out = c.exec(line)
-	if c.mutated() {
-		return "mutated-input"
+	// watchdog: a (mutated) tree must not be able to hang the harness (lost unlock, endless loop)
+	done := make(chan string, 1)
+	go func() {
+		defer func() {
+			if r := recover(); r != nil {
+				done <- "panic"
+			}
+		}()
+		c := &ectx{}
+		o := c.exec(line)
+		if c.mutated() {
+			o = "mutated-input"
+		}
+		done <- o
+	}()
+	select {
+	case o := <-done:
+		return o
+	case <-time.After(60 * time.Second):
+		return "timeout"
 	}
-	return out
 }
 
 // exec applies the domain rules, then runs the real code (execInner)
@@ -588,6 +609,14 @@ func (c *ectx) execInner(line string) string {
 		return runSigHistory(c, f[3:])
 	case "sign":
 		return execSign(c, f[2:])
+	case "signexec": // sign at EXEC time with a seeded stream, verify unmutated (regression net for sign-time defects)
+		// signexec <kind> <seed> <ht> <nIn> <nOut> <idx>
+		sd := buildSigned(core.NewRand(uint64(atoi(f[3]))), f[2], txscript.SigHashType(uint32(atoi(f[4]))),
+			int(atoi(f[5])), int(atoi(f[6])), int(atoi(f[7])))
+		if sd.err {
+			return "signerr"
+		}
+		return execSign(&ectx{}, []string{sd.form, sd.mode, "c", "1", f[7], "-", "-", encTx(sd.tx), encSpent(sd.spent)})
 	case "signclass": // observation made at generation time (SignTxOutput on an unsignable class)
 		if len(f) != 4 {
 			return "bad-op"
@@ -1342,7 +1371,7 @@ func genHardening(g *core.Gen) {
 	r := g.R
 	genBoundaries(g)
 	// ---- independent digest computations running concurrently (no hidden shared state)
-	for k := 0; k < g.N(160, 2500); k++ {
+	for k := 0; k < g.N(100, 2500); k++ {
 		n := 8 + r.Intn(5)
 		subs := make([]string, n)
 		for i := range subs {
@@ -1351,7 +1380,7 @@ func genHardening(g *core.Gen) {
 		g.Case("concurrent-digests", true, "C07 conc "+strings.Join(subs, " | "))
 	}
 	// ---- one SigCache shared by 8..12 goroutines (disjoint keys), with caller buffer overwrites
-	for k := 0; k < g.N(150, 3000); k++ {
+	for k := 0; k < g.N(100, 3000); k++ {
 		n := 8 + r.Intn(5)
 		subs := make([]string, n)
 		for i := range subs {
@@ -1425,7 +1454,7 @@ func (P) Generate(g *core.Gen) {
 	genHardening(g)
 
 	// ---- legacy: all 256 hash types x every index (incl. out of range) on a few shapes
-	for k := 0; k < g.N(3, 30); k++ {
+	for k := 0; k < g.N(2, 30); k++ {
 		nIn, nOut := 1+r.Intn(3), r.Intn(4)
 		tx, _ := randTx(r, nIn, nOut)
 		sig := randSig(r)
@@ -1438,7 +1467,7 @@ func (P) Generate(g *core.Gen) {
 		}
 	}
 	// ---- legacy: random shapes
-	for k := 0; k < g.N(1600, 40000); k++ {
+	for k := 0; k < g.N(1200, 40000); k++ {
 		nIn, nOut := shapeCounts(r)
 		tx, _ := randTx(r, nIn, nOut)
 		sig := randSig(r)
@@ -1464,7 +1493,7 @@ func (P) Generate(g *core.Gen) {
 	}
 
 	// ---- BIP143: grid
-	for k := 0; k < g.N(3, 30); k++ {
+	for k := 0; k < g.N(2, 30); k++ {
 		nIn, nOut := 1+r.Intn(3), r.Intn(4)
 		tx, spent := randTx(r, nIn, nOut)
 		if k%3 != 0 {
@@ -1482,7 +1511,7 @@ func (P) Generate(g *core.Gen) {
 			}
 		}
 	}
-	for k := 0; k < g.N(1600, 40000); k++ {
+	for k := 0; k < g.N(1200, 40000); k++ {
 		nIn, nOut := shapeCounts(r)
 		tx, spent := randTx(r, nIn, nOut)
 		cls := "wit-rand"
@@ -1526,7 +1555,7 @@ func (P) Generate(g *core.Gen) {
 	}
 
 	// ---- BIP341/342: grid
-	for k := 0; k < g.N(3, 30); k++ {
+	for k := 0; k < g.N(2, 30); k++ {
 		nIn, nOut := 1+r.Intn(3), r.Intn(4)
 		tx, spent := randTx(r, nIn, nOut)
 		if k%3 != 0 {
@@ -1547,7 +1576,7 @@ func (P) Generate(g *core.Gen) {
 		}
 	}
 	validTap := []uint32{0, 1, 2, 3, 0x81, 0x82, 0x83}
-	for k := 0; k < g.N(1600, 40000); k++ {
+	for k := 0; k < g.N(1200, 40000); k++ {
 		nIn, nOut := shapeCounts(r)
 		tx, spent := randTx(r, nIn, nOut)
 		cls := "tap-rand"
@@ -1584,7 +1613,7 @@ func (P) Generate(g *core.Gen) {
 	}
 
 	// ---- exported taproot entry points with a real tap leaf (leaf hash computed by TapLeaf.TapHash)
-	for k := 0; k < g.N(800, 20000); k++ {
+	for k := 0; k < g.N(500, 20000); k++ {
 		nIn, nOut := shapeCounts(r)
 		if nIn > 10 {
 			nIn = 1 + r.Intn(4)
@@ -1617,7 +1646,7 @@ func (P) Generate(g *core.Gen) {
 	// every fetcher implementation
 	annexLens := []int{0, 1, 2, 252, 253, 254, 65535, 65536}
 	codeSeps := []uint32{0, 1, 2, 7, 0xfffffffe, 0xffffffff, 0x80000000, 65536}
-	for k := 0; k < g.N(900, 12000); k++ {
+	for k := 0; k < g.N(640, 12000); k++ {
 		nIn, nOut := 1+r.Intn(3), r.Intn(3)
 		tx, spent := randTx(r, nIn, nOut)
 		for i, in := range tx.TxIn { // distinct outpoints: every fetcher sees the same map
@@ -1757,7 +1786,7 @@ func (P) Generate(g *core.Gen) {
 	}
 
 	// ---- removeOpcodeRaw / removeOpcodeByData
-	for k := 0; k < g.N(1600, 40000); k++ {
+	for k := 0; k < g.N(1200, 40000); k++ {
 		sig := randSig(r)
 		mal := r.Chance(1, 5)
 		s := randScriptCode(r, sig, mal)
